@@ -29,6 +29,9 @@ def table_cases(rng, n_tables, tier):
         N = sum(a + b for a, b in counts) + (sum(nanc) if nanc else 0); Nn = sum(a + b for a, b in counts)
         sizes = sorted(set([a + b for a, b in counts] + [counts[i][0] + counts[i][1] + counts[i + 1][0] + counts[i + 1][1] for i in range(k - 1)]))
         mfm = rng.choice([sizes[0] / Nn, sizes[0] / N, sizes[min(1, len(sizes) - 1)] / Nn, 0.01, sizes[-1] / N, 0.0, 0])          # incl. an explicit 0 (falsy)
+        # ... or a hair above / below one (less than 5e-5 away: decisions are taken on the exact frequencies, not on rounded ones)
+        near = [(f + round(f, 4)) / 2 for f in [s_ / d_ for s_ in sizes for d_ in (N, Nn)] if round(f, 4) != f]
+        if near and t % 4 == 1: mfm = rng.choice(near)
         cfg = dict(min_freq=0.04, min_freq_mod=mfm, max_n_mod=rng.choice([2, 3, 4]), sort_by=rng.choice(['tschuprowt', 'cramerv']),
                    dropna=rng.choice([True, True, False]), output_dtype=rng.choice(['float', 'str']))
         reindex(case, rng, t)
